@@ -20,6 +20,9 @@ uint64_t lltd_monotonic_milliseconds(void) {
 
 automata *init_automata_mapping(void) {
     automata *autom = lltd_port_malloc(sizeof(automata));
+    if (!autom) {
+        return NULL;
+    }
     autom->states_no = 3;
     autom->transitions_no = 13;
     autom->last_ts = lltd_monotonic_seconds();
@@ -106,6 +109,9 @@ automata *switch_state_mapping(automata *autom, int input, char *debug) {
 
 automata *init_automata_enumeration(void) {
     automata *autom = lltd_port_malloc(sizeof(automata));
+    if (!autom) {
+        return NULL;
+    }
     autom->states_no = 3;
     autom->transitions_no = 8;
     autom->last_ts = lltd_monotonic_seconds();
@@ -121,6 +127,10 @@ automata *init_automata_enumeration(void) {
 
     autom->extra = lltd_port_malloc(sizeof(band_state));
     band_state *band = (band_state *)autom->extra;
+    if (!band) {
+        lltd_port_free(autom);
+        return NULL;
+    }
     band->begun = false;
     band->Ni = BAND_ALPHA;
     band->r = 0;
@@ -174,6 +184,9 @@ automata *switch_state_enumeration(automata *autom, int input, char *debug) {
 
 automata *init_automata_session(void) {
     automata *autom = lltd_port_malloc(sizeof(automata));
+    if (!autom) {
+        return NULL;
+    }
     autom->states_no = 4;
     autom->transitions_no = 16;
     autom->last_ts = lltd_monotonic_seconds();
